@@ -56,7 +56,9 @@ def record_values(args):
 
     n, p = args
     out = []
-    X = np.zeros((n, p))
+    # NOT constant: with scale 0 a detector that (wrongly) tunes its threshold on the data must not land on 0 by accident
+    X = ((np.arange(n)[:, None] * 7 + 3 * np.arange(p)[None, :]) % 5).astype(float)
+    X[n // 2:] += 4.0
     for sn, sd in SCALES:
         sc = sn / sd
         base = {"rec": "value", "n": n, "p": p, "sn": sn, "sd": sd, "published": 0, "k": 1, **consts_for(n, p, 1, 7)}
